@@ -174,7 +174,7 @@ def check_single_queue(ctx, fx, cfg, r1="R01.1", r2="R01.2"):
     ctx.require(len(ctors) == 2, r1, "ctor-count@" + cfg, "expected exactly the bounded and the unbounded constructor, found %s" % sorted(ctors), detail=sorted(ctors))
     # R01.2 the three closures of each constructor hold ends of that one channel
     subs = chan.submit_closures(fx)
-    ctx.floor(r2, "submit/receive closures (%s)" % cfg, len(subs), 6)
+    n_pairs = 0
     for fn_, calls in sorted(ctors.items()):
         f = fx.fn(fn_)
         b = ctx.body(fx, f)
@@ -197,7 +197,7 @@ def check_single_queue(ctx, fx, cfg, r1="R01.1", r2="R01.2"):
                             ends.add(r1.proj[0] if r1.proj else None)
             return good, ends, rs
 
-        def closures_in(body_, resolve):
+        def closures_in(body_, resolve, tyof=None):
             """submit / receive closures built in body_; resolve(operand of body_) -> (good, ends, roots) in the constructor"""
             for bi, si, st in agg_sites(body_, ak="closure"):
                 cdef = st["r"]["def"]
@@ -209,6 +209,8 @@ def check_single_queue(ctx, fx, cfg, r1="R01.1", r2="R01.2"):
                     if o["k"] not in ("copy", "move"):
                         continue
                     ty = body_.locals[o["p"][0]]["ty"]
+                    if "futures_channel::mpsc::" not in ty and tyof is not None:
+                        ty = tyof(o) or ty  # a generic helper: the type the constructor passes for this parameter
                     if "futures_channel::mpsc::" not in ty:
                         continue
                     want = "f1" if "Receiver<" in ty else "f0"
@@ -217,7 +219,7 @@ def check_single_queue(ctx, fx, cfg, r1="R01.1", r2="R01.2"):
 
         closures_in(b, end_of)
         # a closure may be built by a private helper of the constructor that is given the channel end as an argument
-        helpers = graph.private_helpers(fx, {fn_})
+        helpers = graph.private_helpers(fx, set(ctors))
         for hbi, ht in b.normal_calls():
             h = fx.fn(ht.get("callee") or "")
             if h is None or h["def"] not in helpers:
@@ -234,8 +236,15 @@ def check_single_queue(ctx, fx, cfg, r1="R01.1", r2="R01.2"):
                     good, ends, rs = good and g2, ends | e2, rs | r2_
                 return good, ends, rs
 
-            closures_in(hb, via_helper)
+            def arg_ty(o, _hb=hb, _ht=ht):
+                hr = roots(_hb, o)
+                tys = {_ht["argtys"][r.site - 1] for r in hr if r.kind == "arg" and not r.proj and r.site - 1 < len(_ht["argtys"])}
+                return next(iter(tys)) if len(tys) == 1 else None
+
+            closures_in(hb, via_helper, arg_ty)
+        n_pairs += len(kinds)
         ctx.require(sorted(kinds) == ["forcing", "receive", "waiting"], r2, "closure-set:%s@%s" % (fn_, cfg), "constructor must build exactly one waiting, one forcing and one receive closure, found %s" % sorted(kinds), fn=fn_, site=f["loc"])
+    ctx.floor(r2, "submit/receive closures built by the constructors (%s)" % cfg, n_pairs, 6)
     return ctors, subs
 
 
@@ -295,13 +304,16 @@ def check_cfg(ctx, fx, cfg):
         for kind, local, loc in sites:
             n_sites += 1
             inst = "%s in %s@%s" % (kind, f["def"], cfg)
-            sk = sinks(b, local)
+            sk = graph.value_sinks(fx, b, local)
             calls = [s for s in sk if s["k"] == "call"]
             other = [s["k"] for s in sk if s["k"] in ("agg", "store", "ret", "yield")]
             ok = len(calls) == 1 and calls[0]["t"].get("trait") in (chan.FORCE_TRAIT, chan.TX_TRAIT) and calls[0]["idx"] == 1 and not other
             if not ctx.require(ok, "R01.4", inst, "a payload must be handed to the submit closure in place: flows to %s %s" % ([(s["t"].get("callee"), s["idx"]) for s in calls], other), fn=f["def"], site=loc):
                 continue
             t = calls[0]["t"]
+            if calls[0].get("fn") and calls[0]["fn"] != b.name and fx.fn(calls[0]["fn"]):
+                # the submission sits in a helper the payload was handed to: judge it there
+                b = ctx.body(fx, fx.fn(calls[0]["fn"]))
             rs = roots(b, t["args"][0])
             ctx.require(all(r.kind in ("arg", "upvar") for r in rs), "R01.4", inst + ":own-channel", "the payload is submitted to a channel that is not the handle's own: %s" % sorted(map(str, rs)), fn=f["def"], site=t["l"])
             if t.get("trait") == chan.TX_TRAIT:
@@ -325,18 +337,18 @@ def check_cfg(ctx, fx, cfg):
     # R01.5 loops
     res = run_loops(ctx, fx, "R01.5", {"L7", "L8"})
     for f, kind, b, n in res:
-        fam = [f] + fx.descendants(f["def"])
+        fam = loops.loop_family(fx, f)
         deq = []
         for g in fam:
             gb = ctx.body(fx, g)
             deq += [t["l"] for _, t in gb.normal_calls() if loops.is_mailbox_next(t)]
         ctx.require(len(deq) == 1, "R01.5", "%s-loop-one-dequeue-site@%s" % (kind, cfg), "expected exactly one dequeue site per loop, found %s" % deq, fn=f["def"], site=f["loc"], detail=deq)
-        inv = [t for _, t in b.normal_calls() if loops.is_task_invoke(t)]
-        ok = len(inv) == 1 and inv[0]["argtys"][1:] == ["(&mut A, &mut context::Context<A>)"]
+        inv3 = loops.task_invokes(fx, b)
+        inv = [t for _bi, t, _ok in inv3]
+        ok = len(inv3) == 1 and inv3[0][2]
         ctx.require(ok, "R01.5", "%s-loop-one-invoke-site@%s" % (kind, cfg), "expected exactly one task invocation with (&mut actor, &mut ctx)", fn=f["def"], site=inv[0]["l"] if inv else f["loc"], detail=[t["argtys"] for t in inv])
         # the handler future must not escape: it is awaited directly or handed to the local wrapper whose future is awaited
         if inv:
-            bi = [bi for bi, t in b.normal_calls() if loops.is_task_invoke(t)][0]
             fsk = sinks(b, inv[0]["dest"][0])
             esc = [s for s in fsk if s["k"] == "call" and not ((s["t"].get("callee") or "").endswith(("Future::poll", "get_context")) or loops.local_wrapper(s["t"]))] + [s for s in fsk if s["k"] in ("agg", "store", "ret")]
             ctx.require(not esc, "R01.5", "%s-loop-handler-future-local@%s" % (kind, cfg), "the handler future escapes the loop iteration (spawned / stored): %s" % [(s["k"], s.get("t", {}).get("callee")) for s in esc], fn=f["def"], site=inv[0]["l"])
@@ -365,7 +377,9 @@ def check_cfg(ctx, fx, cfg):
             n_t += 1
             okc = bool(rs) and all(r.kind == "arg" or r.kind.startswith("call:channel::Channel::<A>::") for r in rs)
             ctx.require(okc, "R01.11", "channel-handed-over:%s@%s" % (g["def"], cfg), "the channel the loop runs on is not the one created for this actor (roots %s)" % sorted(map(str, rs)), fn=g["def"], site=t_["l"])
-        ctx.floor("R01.11", "callers of Environment::from_channel (%s)" % cfg, n_t, 6)
+        # every caller is judged; the floor only guards against the constructor having been renamed away (the count itself
+        # changes when terminals share a helper): the environment's own two constructors + at least one builder path
+        ctx.floor("R01.11", "callers of Environment::from_channel (%s)" % cfg, n_t, 3)
     # R01.12 a submission API answers Ok only for a message it has itself put into the mailbox (a call / ping that rides on
     # somebody else's submission is answered from that submission's queue position: program order of the caller is lost)
     from props.c04 import check_submit_on_ok
@@ -380,6 +394,13 @@ def check_cfg(ctx, fx, cfg):
     if ctx.require(pa is not None, "R01.6", "payload-type@" + cfg, "environment::payload::Payload not found"):
         task = [v for v in pa["variants"] if v["name"] == "Task"]
         ty = task[0]["fields"][0]["ty"] if task and task[0]["fields"] else ""
+        # look through crate-local single-field newtypes (`struct Task<A>(TaskFn<A>)`)
+        for _ in range(3):
+            inner = fx.adts.get(ty.split("<")[0])
+            if inner and len(inner["variants"]) == 1 and len(inner["variants"][0]["fields"]) == 1:
+                ty = inner["variants"][0]["fields"][0]["ty"]
+            else:
+                break
         want = "alloc::boxed::Box<dyn core::ops::function::FnOnce<(&mut A, &mut context::Context<A>)> + [Output=core::pin::Pin<alloc::boxed::Box<dyn core::future::future::Future + [Output=()] + core::marker::Send"
         ctx.require(ty.startswith(want), "R01.6", "task-is-boxed-FnOnce@" + cfg, "Payload::Task must hold a boxed FnOnce(&mut A, &mut Context<A>) -> boxed future: %s" % ty[:120], site=pa["loc"], detail=ty[:160])
         clones = [i for i in fx.d["impls"] if i.get("trait") in ("core::clone::Clone", "core::marker::Copy") and i["self"].startswith(loops.PAYLOAD + "<")]
